@@ -161,6 +161,8 @@ def run(ctx, prop=PROP, judge=judge_c04, title="peak connections in flight <= fa
     if prop == "C03" and nsched < 5:
         nsig, sbad = interrupted_runs(ctx, eng, r, quick)
         bad += sbad
+        nexec, ebad = exec_completion(ctx, quick)
+        bad += ebad
     have_input = any(v["kind"] != "no-failing-input-found" for v in ctx.violations)
     vlib.report_proof_break(ctx, have_input)
     cov = vlib.proof_coverage(ctx, {
@@ -212,6 +214,56 @@ def exec_concurrency(ctx, quick):
             nbad += 1
             ctx.violation("input", case={"transport": "exec", "n": n, "f": f, "command": cmd}, expected="at most %d commands alive at any instant" % f,
                           observed=problem, engine="exec", detail=problem + " (commands that close their streams early and run for a second)")
+    return nrun, nbad
+
+
+def exec_completion(ctx, quick):
+    """real children through the exec transport: every target's command is started, and pdsh returns only after each of
+    them has finished (each command leaves a mark when it ends) and its output has been relayed - also when pdsh is started
+    without a standard input (its first connection then gets descriptor 0), when commands close their streams long before
+    they end (with a command time-out shorter than their life), and with more targets than the soft descriptor limit"""
+    import realeng, shutil, resource
+    real = realeng.Real(ctx, tag="real03")
+    exe = os.path.join(real.dir, "bin", "pdsh")
+    mark = os.path.join(ctx.scratch, "done03")
+    nbad, nrun = 0, 0
+    scen = [("no standard input", 4, ["-f", "2"], "echo out-%%h; sleep 0.4; echo end > %s/%%h", "closed", None),
+            ("commands close their streams early and outlive -u 1", 3, ["-f", "3", "-u", "1"], "exec 0<&- 1>&- 2>&-; sleep 4; echo end > %s/%%h", None, None),
+            ("more targets than the soft descriptor limit", 300, ["-f", "16"], "echo out-%%h; echo end > %s/%%h", None, 256)]
+    for name, n, opts, cmd, stdin, soft in scen:
+        shutil.rmtree(mark, ignore_errors=True)
+        os.makedirs(mark)
+
+        def pre(stdin=stdin, soft=soft):
+            if stdin == "closed":
+                os.close(0)
+            if soft:
+                hard = resource.getrlimit(resource.RLIMIT_NOFILE)[1]
+                resource.setrlimit(resource.RLIMIT_NOFILE, (soft, hard))
+        import subprocess
+        try:
+            p = subprocess.run([exe, "-R", "exec"] + opts + ["-w", "h[1-%d]" % n, "sh", "-c", cmd % mark], env={"PATH": "/usr/bin:/bin", "HOME": "/root", "LANG": "C"},
+                               stdout=subprocess.PIPE, stderr=subprocess.PIPE, timeout=90, preexec_fn=pre)
+            rc, o, e = p.returncode, p.stdout, p.stderr
+        except subprocess.TimeoutExpired:
+            rc, o, e = -999, b"", b""
+        nrun += 1
+        done = set(os.listdir(mark))           # read the moment pdsh has returned
+        problem = None
+        missing = [k for k in range(1, n + 1) if "h%d" % k not in done]
+        if rc == -999:
+            problem = "pdsh did not return within 90 s"
+        elif missing:
+            problem = "pdsh returned (exit %d) although the commands of %d target(s) had not finished or were never started (e.g. h%d)" % (rc, len(missing), missing[0])
+        elif "out-" in cmd:
+            lines = set(o.decode("latin-1").split("\n"))
+            lost = [k for k in range(1, n + 1) if ("h%d: out-h%d" % (k, k)) not in lines]
+            if lost:
+                problem = "the output of %d target(s) was not relayed (e.g. h%d); stderr %r" % (len(lost), lost[0], e[-160:])
+        if problem:
+            nbad += 1
+            ctx.violation("input", case={"transport": "exec", "situation": name, "targets": n, "options": opts, "command": cmd}, expected="every command started once, pdsh returns after the last has ended",
+                          observed=problem, engine="exec", detail=problem + " (%s)" % name)
     return nrun, nbad
 
 
